@@ -111,6 +111,16 @@ pub struct Outcome {
     pub sim: SimState,
 }
 
+/// What the client has received: bytes written but never flushed do not count once run_on has
+/// returned Ok (on an error return the connection is gone and whatever was written is looked at).
+pub fn delivered(o: &Outcome) -> &[u8] {
+    if o.res.is_ok() {
+        &o.sim.out[..o.sim.flushed]
+    } else {
+        &o.sim.out
+    }
+}
+
 impl Outcome {
     pub fn cbs(&self) -> Vec<&Cb> {
         self.log.iter().map(|x| &x.1).collect()
